@@ -112,8 +112,7 @@ class ReachDefs:
                     new_in |= OUT[p]
             IN[n] = new_in
             gen = self.by_node.get(n, [])
-            killed = {d.name for d in gen if d.kind != "aug"}
-            killed |= {d.name for d in gen if d.kind == "aug"}
+            killed = {d.name for d in gen if d.kind != "aug"}   # x += v is a weak update
             out = {d for d in new_in if d.name not in killed} | set(gen)
             if out != OUT[n]:
                 OUT[n] = out
